@@ -433,6 +433,58 @@ class Body:
             self._mutborrowed = m
         return self._mutborrowed
 
+    @property
+    def mutators(self):
+        """local -> sorted tuple of callee names that receive a `&mut` borrow of it
+        (the value of such a local may change through those calls)"""
+        if getattr(self, "_mutators", None) is None:
+            temps = {}  # temp local -> base local
+            changed = True
+            borrow_stmts = []
+            for b in self.blocks:
+                if b["cleanup"]:
+                    continue
+                for s in b["stmts"]:
+                    if s["k"] == "assign" and s["rv"]["k"] in ("ref", "rawptr") and s["rv"].get("mut", True) and not s["place"]["p"]:
+                        borrow_stmts.append((s["place"]["l"], s["rv"]["place"]))
+                    elif s["k"] == "assign" and s["rv"]["k"] == "use" and s["rv"]["op"]["k"] in ("move", "copy") and not s["place"]["p"] and not s["rv"]["op"]["place"]["p"]:
+                        borrow_stmts.append((s["place"]["l"], {"l": s["rv"]["op"]["place"]["l"], "p": [{"k": "alias"}]}))
+            while changed:
+                changed = False
+                for dst, pl in borrow_stmts:
+                    if dst in temps:
+                        continue
+                    base = pl["l"]
+                    if pl["p"] and pl["p"][0]["k"] == "alias":
+                        if base in temps:
+                            temps[dst] = temps[base]
+                            changed = True
+                        continue
+                    derefs = [e for e in pl["p"] if e["k"] == "deref"]
+                    if not derefs:
+                        temps[dst] = base
+                        changed = True
+                    elif base in temps:
+                        temps[dst] = temps[base]
+                        changed = True
+            m = defaultdict(set)
+            for b in self.blocks:
+                if b["cleanup"]:
+                    continue
+                t = b["term"]
+                if t["k"] != "call":
+                    continue
+                for a in t["args"]:
+                    if a["k"] in ("move", "copy") and not a["place"]["p"] and a["place"]["l"] in temps:
+                        name = callee_key(t["func"]) or "?"
+                        if (t["func"].get("trait"), t["func"].get("method")) in TRANSPARENT_CALLS:
+                            continue
+                        if re.search(r"std::iter::(Iterator|DoubleEndedIterator|ExactSizeIterator|IntoIterator|Peekable)|Iterator(<.*>)?>::|::next$|std::fmt::|std::ops::Try|FromResidual", name):
+                            continue
+                        m[temps[a["place"]["l"]]].add(name)
+            self._mutators = {k: tuple(sorted(v)) for k, v in m.items()}
+        return self._mutators
+
     def local_name(self, l):
         if self._names is None:
             self._names = {}
@@ -563,6 +615,9 @@ def callee_key(func):
     return func.get("resolved") or func.get("def")
 
 
+_POINTER_ADTS = {"std::boxed::Box", "std::ptr::Unique", "std::ptr::NonNull", "std::ptr::unique::Unique", "std::ptr::non_null::NonNull"}
+
+
 class Terms:
     """Demand-driven value-flow (origin terms) for one body.
 
@@ -573,6 +628,7 @@ class Terms:
         self.body = body
         self.edge_ok = edge_ok
         self.keep_transparent = keep_transparent
+        self.track_mut = True
         self.memo = {}
         self.in_progress = set()
 
@@ -655,7 +711,10 @@ class Terms:
             return ("const", op["ty"], int(op["bigint"]))
         if "float" in op:
             return ("const", op["ty"], op["float"])
-        return ("const", op.get("ty"), op.get("s"))
+        sv = op.get("s")
+        if op.get("ty") in ("&str", "&'static str") and isinstance(sv, str) and len(sv) >= 2 and sv[0] == '"' and sv[-1] == '"':
+            sv = sv[1:-1]
+        return ("const", op.get("ty"), sv)
 
     def place(self, pl, bb, idx):
         base = self.local(pl["l"], bb, idx)
@@ -668,6 +727,8 @@ class Terms:
             if k == "deref":
                 continue
             if k == "field":
+                if e.get("adt") in _POINTER_ADTS:
+                    continue  # Box<T> / Unique<T> / NonNull<T> internals: the place is the pointee
                 t = mk_field(t, e.get("name", str(e["i"])), e["i"])
             elif k == "downcast":
                 t = mk_variant(t, e.get("name", e["v"]))
@@ -715,6 +776,10 @@ class Terms:
                 t = mk_phi(terms)
         finally:
             self.in_progress.discard(key)
+        if self.track_mut and t[0] != "mut":
+            mu = body.mutators.get(l)
+            if mu:
+                t = ("mut", t, mu)
         self.memo[key] = t
         return t
 
@@ -866,6 +931,11 @@ def mk_field(t, name, idx):
     return ("field", t, name)
 
 
+def unmut(t):
+    """drop `mut` wrappers (for rules that deliberately ignore in-place mutation)"""
+    return rewrite(t, lambda x: unmut(x[1]) if x[0] == "mut" else None)
+
+
 def mk_variant(t, name):
     if t[0] == "phi":
         return mk_phi([mk_variant(x, name) for x in t[1]])
@@ -973,6 +1043,8 @@ def deep_strip(t):
         return mk_phi([deep_strip(x) for x in t[1]])
     if h == "update":
         return ("update", deep_strip(t[1]), t[2], deep_strip(t[3]))
+    if h == "mut":
+        return ("mut", deep_strip(t[1]), t[2])
     return t
 
 
@@ -1040,6 +1112,8 @@ def short(t, depth=0):
         return "%s(%s)" % (h, s(t[1]))
     if h == "update":
         return "%s with .%s := %s" % (s(t[1]), ".".join(str(x) for x in t[2]), s(t[3]))
+    if h == "mut":
+        return "mut(%s)" % s(t[1])
     return str(t)
 
 
@@ -1852,3 +1926,14 @@ def rewrite(t, fn):
         else:
             out.append(x)
     return tuple(out)
+
+
+def short_fn_name(path):
+    """stable short name of a function path: Type@Trait::method / module::function"""
+    m = re.match(r"^<(.+?) as (.+?)>::(.*)$", path)
+    if m:
+        ty = re.sub(r"<.*$", "", m.group(1)).split("::")[-1]
+        tr = re.sub(r"<.*$", "", m.group(2)).split("::")[-1]
+        return "%s@%s::%s" % (ty, tr, m.group(3))
+    parts = [q for q in re.sub(r"<[^<>]*>", "", path).split("::") if q]
+    return "::".join(parts[-2:])
